@@ -918,6 +918,104 @@ func runRebuild(k writeCase) ([]string, string) {
 }
 
 // ---------------------------------------------------------------------------
+// getline var in CSV/TSV input mode: the next record goes to the variable, the current
+// record keeps its $0, NF, $1..$NF and @"name"
+
+const getlineSrc = `{ printf "R:%s:", H($0); for (i = 1; i <= NF; i++) printf "%s%s", (i > 1 ? "," : ""), H($i); printf ";"
+  r = (getline v)
+  if (r > 0) {
+    printf "G:%s:%s:%d:", H(v), H($0), NF; for (i = 1; i <= NF; i++) printf "%s%s", (i > 1 ? "," : ""), H($i); printf ";"
+    if (1 in FIELDS) { x = FIELDS[1]; printf "N:%s;", H(@x) }
+  } else printf "E;"
+}`
+
+var getlineProg *parser.Program
+
+const clsGetline = "getline var in csv input mode"
+const orcGetline = "getline var leaves $0, NF, the fields and @\"name\" of the current record as they were"
+
+func runGetline(k readCase) (res string) {
+	defer func() {
+		if r := recover(); r != nil {
+			res = "|panic"
+		}
+	}()
+	var out, errb bytes.Buffer
+	mode := interp.CSVMode
+	if k.Sep == '\t' {
+		mode = interp.TSVMode
+	}
+	cfg := &interp.Config{Stdin: &chunkReader{cloneChunks(k.Chunks)}, Output: &out, Error: &errb, Funcs: funcs, Environ: []string{},
+		InputMode: mode, CSVInput: interp.CSVInputConfig{Separator: k.Sep, Comment: k.Comment, Header: k.Header}}
+	_, err := interp.ExecProgram(getlineProg, cfg)
+	if err != nil {
+		return out.String() + "|err:" + err.Error()
+	}
+	return out.String() + "|eof"
+}
+
+// what the getline program must print, given the records (header row removed) of the input
+func getlineWant(names string, toks, fields []string) string {
+	var sb strings.Builder
+	for i := 0; i < len(toks); i += 2 {
+		sb.WriteString("R:" + toks[i] + ":" + fields[i] + ";")
+		if i+1 >= len(toks) {
+			sb.WriteString("E;")
+			break
+		}
+		nf := strings.Count(fields[i], ",") + 1
+		fmt.Fprintf(&sb, "G:%s:%s:%d:%s;", toks[i+1], toks[i], nf, fields[i])
+		if names != "" {
+			// @x with x = the first header name: the field at the first position with that name... the
+			// name-to-index map takes the LAST column of a repeated name
+			hs := strings.Split(names, ",")
+			fs := strings.Split(fields[i], ",")
+			idx := 0
+			for j, h := range hs {
+				if h == hs[0] {
+					idx = j
+				}
+			}
+			v := "-"
+			if idx < len(fs) {
+				v = fs[idx]
+			}
+			sb.WriteString("N:" + v + ";")
+		}
+	}
+	return sb.String() + "|eof"
+}
+
+func genGetlineCases(r *hx.Rand) []readCase {
+	docs := []string{"a,b\nc,d\ne,f\ng,h\n", "a,b,c\nd\ne,f\ng,h,i,j\nk\n", "a\nb,c,d\ne\nf,g\n", "n1,n2\n1,2\n3\n4,5,6\n7,8\n",
+		"x,\"y\nz\"\n\"p\"\"q\",r,s\n\nt\n#u\nv,w\n", "a,b\n", "a,b\nc,d", "h,h\n1,2\n3,4\n", "a,b\r\nc\r\nd,e,f\r\n"}
+	var out []readCase
+	add := func(d []byte, c ioCfg, kind string) {
+		for _, ch := range [][][]byte{{d}, splitAt(d, onesCuts(len(d))), splitAt(d, []int{len(d) / 2})} {
+			out = append(out, readCase{Data: d, Chunks: ch, Sep: c.Sep, Comment: c.Comment, Header: c.Header, Via: "api", Cap: apiCap, Max: apiMax, Kind: kind})
+		}
+	}
+	for _, d := range docs {
+		for _, c := range []ioCfg{{',', 0, false}, {',', '#', true}} {
+			add([]byte(d), c, "getline-seed")
+		}
+	}
+	for i := 0; i < 25; i++ {
+		c := randCfg(r)
+		add(genStructured(r, c), c, "getline-structured")
+	}
+	return out
+}
+
+func onesCuts(n int) []int {
+	var cuts []int
+	for i := 1; i < n; i++ {
+		cuts = append(cuts, i)
+	}
+	return cuts
+}
+
+// ---------------------------------------------------------------------------
 // where a row goes: every kind of print destination in CSV/TSV output mode
 
 type destCase struct {
@@ -1227,6 +1325,7 @@ type spec struct{ cfg ioCfg; data []byte }
 func main() {
 	o := hx.ParseFlags()
 	readProg = mustParse(readSrc, funcs)
+	getlineProg = mustParse(getlineSrc, funcs)
 	if o.Replay != "" {
 		os.Exit(replay(o))
 	}
@@ -1445,6 +1544,15 @@ func main() {
 		}
 	}
 
+	// ---- getline var ----
+	getlines := genGetlineCases(r)
+	getlineImpl := make([]string, len(getlines))
+	getlineAt := len(lines)
+	for i, k := range getlines {
+		getlineImpl[i] = runGetline(k)
+		lines = append(lines, k.line())
+	}
+
 	// ---- output destinations ----
 	dests := genDestCases(r, thorough)
 	type dres struct {
@@ -1657,6 +1765,27 @@ func main() {
 		}
 	}
 
+	// ---- evaluate: getline var ----
+	for i, k := range getlines {
+		rep.CorrEvals++
+		rep.Count("getline:" + k.Kind + ":" + chunkKind(k))
+		rep.Distinct("getline " + lines[getlineAt+i])
+		if model != nil {
+			mp := parseRes(model[getlineAt+i])
+			if want := getlineWant(mp.names, mp.toks, mp.fields); mp.final == "eof" && want != getlineImpl[i] {
+				rep.Mismatch(hx.Mismatch{Class: "getline", Input: trunc(lines[getlineAt+i]), Impl: trunc(getlineImpl[i]), Model: trunc(want)})
+			}
+		}
+		rep.SearchEvals++
+		rp := parseRes(refString(refRead(k.Data, k.Sep, k.Comment), k.Header))
+		if want := getlineWant(rp.names, rp.toks, rp.fields); want != getlineImpl[i] {
+			d := readDetail(k, want, getlineImpl[i])
+			d["kind"], d["program"] = "getline", getlineSrc
+			d["format"] = "R:<$0>:<fields>; then after getline v: G:<v>:<$0>:<NF>:<fields>; N:<@first header name>; or E; at the end of the input"
+			rep.Fail(hx.Failure{Class: clsGetline, Oracle: orcGetline, Detail: d})
+		}
+	}
+
 	// ---- evaluate: output destinations ----
 	for i, k := range dests {
 		d := dr[i]
@@ -1799,6 +1928,21 @@ func replay(o hx.Opts) int {
 		fmt.Printf("row: %q sep=%q\nrebuild (%s): %v\nwant: %d:%s\n", row, k.Sep, st, ls, len(row), hexList(row))
 		if st != "ok" || len(ls) != 1 || !strings.HasSuffix(strings.TrimSuffix(ls[0], ";"), fmt.Sprintf(":%d:%s", len(row), hexList(row))) {
 			rep.Fail(hx.Failure{Class: "replay", Oracle: orcRebuild})
+		}
+	case "getline":
+		k := readCase{Data: hx.UnHex(str("input_hex")), Sep: rune(num("separator")), Comment: rune(num("comment")), Via: "api", Cap: apiCap, Max: apiMax}
+		k.Header, _ = d["header"].(bool)
+		if chs, ok := d["chunks_hex"].([]any); ok {
+			for _, c := range chs {
+				k.Chunks = append(k.Chunks, hx.UnHex(c.(string)))
+			}
+		}
+		got := runGetline(k)
+		rp := parseRes(refString(refRead(k.Data, k.Sep, k.Comment), k.Header))
+		want := getlineWant(rp.names, rp.toks, rp.fields)
+		fmt.Printf("input:  %q\nchunks: %q\nsep=%q comment=%q header=%v\nprogram:\n%s\nwant: %s\ngot:  %s\n", k.Data, k.Chunks, k.Sep, k.Comment, k.Header, getlineSrc, want, got)
+		if got != want {
+			rep.Fail(hx.Failure{Class: "replay", Oracle: orcGetline})
 		}
 	case "dest":
 		var rows [][]string
